@@ -4,6 +4,7 @@ package electricpb
 
 import (
 	"context"
+	"strconv"
 
 	"github.com/smart-core-os/sc-api/go/traits"
 	"github.com/smart-core-os/sc-api/go/types"
@@ -112,6 +113,45 @@ func VT_C15_CapPageSize() {
 		vt.Assert(got == 1000, "capped-at-1000")
 	default:
 		vt.Assert(got == p, "in-range-unchanged")
+	}
+	vt.Reach("done")
+}
+
+func vtHex16(i int) string {
+	h := strconv.FormatInt(int64(i), 16)
+	return "0000000000000000"[:16-len(h)] + h
+}
+
+// More items than the 1000 cap and a page size above the cap: the page is capped at 1000 and the chain continues.
+func VT_C15_ListModesOverCap() {
+	vt.Unwind(1200)
+	const n = 1001
+	var opts []resource.Option
+	for i := 1; i <= n; i++ {
+		id := vtHex16(i)
+		opts = append(opts, resource.WithInitialRecord(id, &traits.ElectricMode{Id: id}))
+	}
+	srv := &ModelServer{model: &Model{modes: resource.NewCollection(opts...)}}
+	ps := vt.Int32("pageSize")
+	vt.Assume(ps > 1000)
+	resp, err := srv.ListModes(context.Background(), &traits.ListModesRequest{PageSize: ps})
+	vt.Assert(err == nil, "well-formed-request-succeeds")
+	if err != nil {
+		return
+	}
+	vt.Assert(len(resp.Modes) == 1000, "page-capped-at-1000")
+	vt.Assert(int(resp.TotalSize) == n, "total-size-is-the-number-of-items")
+	vt.Assert(resp.NextPageToken != "", "capped-page-continues-with-a-next-token")
+	if resp.NextPageToken != "" {
+		resp2, err2 := srv.ListModes(context.Background(), &traits.ListModesRequest{PageSize: ps, PageToken: resp.NextPageToken})
+		vt.Assert(err2 == nil, "second-page-succeeds")
+		if err2 == nil {
+			vt.Assert(len(resp2.Modes) == 1, "last-page-has-the-remaining-item")
+			if len(resp2.Modes) == 1 {
+				vt.Assert(resp2.Modes[0].Id == vtHex16(n), "every-item-exactly-once")
+			}
+			vt.Assert(resp2.NextPageToken == "", "chain-ends")
+		}
 	}
 	vt.Reach("done")
 }
